@@ -8,7 +8,8 @@ use crate::json::{self, obj, s, J};
 use crate::prng::Fnv;
 use crate::real::{self, Decoded};
 
-pub const RX_CAP: usize = crate::faults::MAX_MSG;
+/// capacity of the device's receive buffer (larger than the CTAPHID message limit: other transports exist)
+pub const RX_CAP: usize = 16384;
 
 /// The rule that fired, and what was observed.
 #[derive(Clone, Debug, PartialEq)]
@@ -364,9 +365,14 @@ pub fn exec(dev: &mut Device, step: &Step, prop: Prop, log: &mut Log) -> Option<
             match expect {
                 DeliverExpect::None => None,
                 DeliverExpect::Precondition => {
-                    if let Decoded::Err(_) = d {
+                    if let Decoded::Err(st) = d {
                         dev.skipping = true;
                         dev.skipped_seeds += 1;
+                        // why a well-formed seed is rejected is other properties' business, but ANY rejection
+                        // must carry one of the three codes
+                        if prop == Prop::C05 && !STATUS_SET.contains(&st) {
+                            return finding("status_set", format!("rejection status 0x{:02x} is outside {{0x01, 0x12, 0x14}} [{}]", st, desc));
+                        }
                     } else {
                         dev.used_seeds += 1;
                     }
